@@ -4,6 +4,8 @@ package main
 
 import (
 	"bytes"
+	"encoding/hex"
+	"fmt"
 	"sort"
 	"strconv"
 	"strings"
@@ -465,6 +467,10 @@ func runC05(r *Rng, tier string, n int) {
 	independentStrings(r, indep)
 	// (7) model cases
 	modelCases(r, tier)
+	// (8) the mnemonic tables over the life of a private type: before registration, while registered and
+	// after removal, a record that MENTIONS the type code (NSEC bitmap, RRSIG type covered, its own header)
+	// prints to text that is accepted and gives the same record
+	privateTypeLifeCycle()
 
 	// keep the stat line small: fold the per-field rejection counters
 	out := map[string]int{}
@@ -483,4 +489,53 @@ func runC05(r *Rng, tier string, n int) {
 	out["generator_cells_rejected_by_unpack"] = rej
 	out["raw_struct_cells_not_reread"] = rawCells
 	Stat(out)
+}
+
+type c05Priv struct{ b []byte }
+
+func (d *c05Priv) String() string { return hex.EncodeToString(d.b) }
+func (d *c05Priv) Parse(s []string) error {
+	b, err := hex.DecodeString(strings.Join(s, ""))
+	d.b = b
+	return err
+}
+func (d *c05Priv) Pack(buf []byte) (int, error) {
+	if len(buf) < len(d.b) {
+		return 0, dns.ErrBuf
+	}
+	return copy(buf, d.b), nil
+}
+func (d *c05Priv) Unpack(buf []byte) (int, error) {
+	d.b = append([]byte(nil), buf...)
+	return len(buf), nil
+}
+func (d *c05Priv) Copy(dst dns.PrivateRdata) error {
+	dst.(*c05Priv).b = append([]byte(nil), d.b...)
+	return nil
+}
+func (d *c05Priv) Len() int { return len(d.b) }
+
+func privateTypeLifeCycle() {
+	const code = 65346
+	mention := func(phase string) {
+		recs := []dns.RR{
+			&dns.NSEC{Hdr: dns.RR_Header{Name: "a.example.", Rrtype: dns.TypeNSEC, Class: 1, Ttl: 5}, NextDomain: "b.example.", TypeBitMap: []uint16{1, 46, 47, code}},
+			&dns.RRSIG{Hdr: dns.RR_Header{Name: "a.example.", Rrtype: dns.TypeRRSIG, Class: 1, Ttl: 5}, TypeCovered: code, Algorithm: 8, Labels: 2, OrigTtl: 5,
+				Expiration: 1800000000, Inception: 1700000000, KeyTag: 7, SignerName: "example.", Signature: "AQID"},
+			&dns.CSYNC{Hdr: dns.RR_Header{Name: "a.example.", Rrtype: dns.TypeCSYNC, Class: 1, Ttl: 5}, Serial: 1, Flags: 3, TypeBitMap: []uint16{1, code}},
+		}
+		for _, rr := range recs {
+			stats["private_type_lifecycle_checked"]++
+			txt := rr.String()
+			back, err := dns.NewRR(txt)
+			if err != nil || back == nil || back.String() != txt {
+				Viol("C05/private-type/mention-not-rereadable/"+phase, fmt.Sprintf("a record mentioning type %d prints as %q, which is not read back to the same record (%v)", code, txt, err), map[string]string{"text": txt})
+			}
+		}
+	}
+	mention("before")
+	dns.PrivateHandle("VPRIVC", code, func() dns.PrivateRdata { return new(c05Priv) })
+	mention("registered")
+	dns.PrivateHandleRemove(code)
+	mention("removed")
 }
